@@ -77,6 +77,11 @@ func alphabet() []piece {
 		{Group: "names", Name: "xs.append(undefined)", Prog: []*N{Expr(Meth(Id("xs"), "append", Id("undefined_name")))}},
 		{Group: "names", Name: "to_upper", Prog: []*N{Expr(Meth(Str("ab"), "to_upper"))}},
 		{Group: "names", Name: "xs.append(4);xs", Prog: []*N{Expr(Meth(Id("xs"), "append", Int(4))), Expr(Id("xs"))}},
+		// a piece rejected inside a function body, then a piece whose top-level functions refer to each other forwards
+		{Group: "forward", Name: "func bad(){undefined}", Prog: []*N{FuncDecl("bad", nil, Return(Id("undefined_name")))}},
+		{Group: "forward", Name: "func deep(){if{undefined}}", Prog: []*N{FuncDecl("bad2", nil, If(Bool(true), []*N{Expr(Func("", nil, Return(Id("undefined_name"))))}, nil), Return(Int(1)))}},
+		{Group: "forward", Name: "fa->fb;fa()", Prog: []*N{FuncDecl("fa", nil, Return(call("fb"))), FuncDecl("fb", nil, Return(Bin("+", Id("x"), Int(7)))), Expr(call("fa"))}},
+		{Group: "forward", Name: "fa()", Prog: []*N{Expr(call("fa"))}},
 		// a piece that fails by exhausting the operand stack many frames deep: the session goes on
 		{Group: "overflow", Name: "overflow", Prog: []*N{FuncDecl("deep", P("n"), Return(Bin("+", Int(1), call("deep", Bin("+", Id("n"), Int(1)))))), Expr(call("deep", Int(0)))}},
 	}
